@@ -13,6 +13,9 @@ SUPPORTED = ((1, 4), (1, 5), (2, 0), (2, 1), (2, 2))
 # MySensors serial API: highest internal type number per protocol version (types are 0..max).
 INTERNAL_MAX = {"1.4": 14, "1.5": 17, "2.0": 28, "2.1": 28, "2.2": 33}
 STREAM_MAX = {v: 5 for v in VERSIONS}
+# presentation (S_*) and set/req (V_*) type tables of the serial API: highest number per version
+S_MAX = {"1.4": 25, "1.5": 35, "2.0": 39, "2.1": 39, "2.2": 39}
+V_MAX = {"1.4": 39, "1.5": 46, "2.0": 56, "2.1": 56, "2.2": 56}
 
 # command numbers
 PRESENTATION, SET, REQ, INTERNAL, STREAM = 0, 1, 2, 3, 4
